@@ -395,10 +395,34 @@ class Sim:
         return cb
 
     def on_stop_cb(self, tag: str = "client") -> Callable[[bool], Any]:
+        """The application's stop callback.  Its Python FORM rotates - a coroutine function, a bound method of an object nothing else refers to, a
+        functools.partial of a coroutine function, an object with an async __call__ - all of which an application may pass and all of which must
+        be called the same way."""
+        import functools
+
+        sim = self
+
         async def on_stop(expected: bool) -> None:
             # runs eagerly inside APIConnection._cleanup (create_eager_task), so seq/time are those of the call
-            self.user_on_stop.append((self.next_seq(), self.clock, tag, expected))
-            self.log("on_stop", tag, expected)
+            sim.user_on_stop.append((sim.next_seq(), sim.clock, tag, expected))
+            sim.log("on_stop", tag, expected)
+
+        form = rotation.decide("on_stop_form", ("coroutine-function", "bound-method-of-temporary", "coroutine-function", "partial", "callable-object",
+                                                "coroutine-function"))
+        if form == "bound-method-of-temporary":
+            class Session:
+                async def stopped(self, expected: bool) -> None:
+                    await on_stop(expected)
+            return Session().stopped
+        if form == "partial":
+            async def on_stop2(_tag: str, expected: bool) -> None:
+                await on_stop(expected)
+            return functools.partial(on_stop2, tag)
+        if form == "callable-object":
+            class Stopper:
+                async def __call__(self, expected: bool) -> None:
+                    await on_stop(expected)
+            return Stopper()
         return on_stop
 
 
